@@ -1,5 +1,6 @@
 import NucleoVerif.Props.C03_Entry
 import NucleoVerif.Props.C02_Substring
+import NucleoVerif.Props.C01
 /-! # C03 (companion file) — the score is the scheme on the reported alignment: substring, greedy, and every path of `fuzzy_match`
 
 With `C03_tight_score` (no side condition on a tight window) the remaining call sites of `calculate_score` follow: the
@@ -328,5 +329,33 @@ theorem C03_fuzzy_all_paths_unicode (cfg : Cfg) (ext : Ext) (nrep : Rep) (h : Li
       have hx : x = h[start] := by rw [List.getElem?_eq_getElem f1] at f2; exact (Option.some.inj f2).symm
       have h0 : norm cfg .unicode h[start] = n0 := by rw [← hx]; show normChar cfg x = n0; simpa using f3
       exact C03_greedy_unicode_score cfg ext nrep h n0 (n1 :: ns) start f1 h0 hw hdl hpp hshort sc is hres
+
+/-! ## `fuzzy_match` in one statement (C01 + C02 + C03) -/
+
+/-- **`fuzzy_match` / `fuzzy_indices` on a code-point haystack**: it matches exactly when the needle is a subsequence of the
+    normalized haystack, and then the reported indices are a valid witness whose value under the scheme is the returned
+    score (needle of 2 to 2519 characters, normalized, shorter than the haystack; prefix preference off) -/
+theorem fuzzy_match_correct_unicode (cfg : Cfg) (ext : Ext) (nrep : Rep) (h : List Nat) (n0 n1 : Nat) (ns : List Nat)
+    (hpp : cfg.preferPrefix = false) (hw : cfg.white ≤ 10) (hdl : cfg.delim ≤ 10)
+    (hn : (n0 :: n1 :: ns).map (norm cfg nrep) = n0 :: n1 :: ns)
+    (hlen : (n0 :: n1 :: ns).length < h.length) (hshort : (n0 :: n1 :: ns).length ≤ 2519) :
+    (fuzzyMatch cfg ext .unicode nrep h (n0 :: n1 :: ns)).isSome = subseqB (n0 :: n1 :: ns) (normHay cfg .unicode h) ∧
+    ∀ sc is, fuzzyMatch cfg ext .unicode nrep h (n0 :: n1 :: ns) = some (sc, is) →
+      validWitnessB cfg .unicode h (n0 :: n1 :: ns) is = true ∧ sc = alignScore cfg ext h is :=
+  ⟨C01_decision_unicode cfg ext nrep h _ hn, fun sc is hres =>
+    ⟨C02_fuzzy_entry_unicode cfg ext nrep h n0 n1 ns hpp hn hlen sc is hres,
+     C03_fuzzy_all_paths_unicode cfg ext nrep h n0 n1 ns hpp hw hdl hn hlen hshort sc is hres⟩⟩
+
+/-- **`fuzzy_match` / `fuzzy_indices` on an ASCII haystack with an ASCII needle** -/
+theorem fuzzy_match_correct_ascii (cfg : Cfg) (ext : Ext) (h : List Nat) (n0 n1 : Nat) (ns : List Nat)
+    (hpp : cfg.preferPrefix = false) (hw : cfg.white ≤ 10) (hdl : cfg.delim ≤ 10)
+    (hasc : ∀ c ∈ h, c < 128) (hn : ∀ c ∈ n0 :: n1 :: ns, normAscii cfg c = c)
+    (hlen : (n0 :: n1 :: ns).length < h.length) (hshort : (n0 :: n1 :: ns).length ≤ 2519) :
+    (fuzzyMatch cfg ext .ascii .ascii h (n0 :: n1 :: ns)).isSome = subseqB (n0 :: n1 :: ns) (normHay cfg .ascii h) ∧
+    ∀ sc is, fuzzyMatch cfg ext .ascii .ascii h (n0 :: n1 :: ns) = some (sc, is) →
+      validWitnessB cfg .ascii h (n0 :: n1 :: ns) is = true ∧ sc = alignScore cfg ext h is :=
+  ⟨C01_decision_ascii cfg ext h _ hasc hn, fun sc is hres =>
+    ⟨C02_fuzzy_entry_ascii cfg ext h n0 n1 ns hpp hasc hn hlen sc is hres,
+     C03_fuzzy_all_paths_ascii cfg ext h n0 n1 ns hpp hw hdl hasc hn hlen hshort sc is hres⟩⟩
 
 end NucleoVerif
